@@ -34,15 +34,17 @@ def bitmap_sectors(spb: int) -> int:
 
 
 def build(img, *, block_size=2 << 20, table_offset=1536, data_start=None, original_size=None, file_id=0, P=None,
-          size_bytes=None, extra_bat_entries=0):
-    """img: {"kind","n","cb","bat","size","foot511"} -> (VirtualFile, info dict)."""
+          size_bytes=None, extra_bat_entries=0, footer_kw=None):
+    """img: {"kind","n","cb","bat","size","foot511"} -> (VirtualFile, info dict).
+    footer_kw: footer fields that do not influence the mapping (features, uid, timestamp, geometry)."""
+    footer_kw = footer_kw or {}
     cb = img["cb"]
     cell = block_size // cb
     assert cell * cb == block_size and cell % 512 == 0
     size_b = img["size"] * cell if size_bytes is None else size_bytes
     flen = 511 if img["foot511"] else 512
     if img["kind"] == "fixed":
-        ft = footer(size_b, 2, 0xFFFFFFFFFFFFFFFF, original_size=original_size)
+        ft = footer(size_b, 2, 0xFFFFFFFFFFFFFFFF, original_size=original_size, **footer_kw)
         ext = [(0, size_b, "pat", file_id), (size_b, flen, "bytes", ft[:flen])]
         vf = VirtualFile(size_b + flen, ext, fid=file_id)
         return vf, {"cell": cell, "size": size_b, "base": 0, "stride": block_size, "cb": cb}
@@ -58,7 +60,7 @@ def build(img, *, block_size=2 << 20, table_offset=1536, data_start=None, origin
     assert data_start % 512 == 0 and data_start >= table_offset + 4 * nent
     bat = b"".join(struct.pack(">I", 0xFFFFFFFF if e < 0 else (data_start + e * stride) // 512) for e in ents)
     bat += b"\xff" * (4 * extra_bat_entries)
-    ft = footer(size_b, 3, 512, original_size=original_size)
+    ft = footer(size_b, 3, 512, original_size=original_size, **footer_kw)
     dh = dyn_header(table_offset, nent, block_size)
     ext = [(0, 512, "bytes", ft), (512, 1024, "bytes", dh), (table_offset, len(bat), "bytes", bat)]
     for p in range(npos):
